@@ -58,7 +58,7 @@ def ENCODED():
 def cases(tier, seed):
     out = [f"data/{k}/{e}" for k in ("daily", "hourly") for e in ("elec", "gas")] + ["predict/frame", "predict/history", "predict/billing-agg"]
     out += [f"gate/{f}" for f in ("daily", "billing", "hourly")] + ["gate/hourly-predict"]
-    out += [f"series/{fam}/{role}" for fam in ("daily", "billing") for role in ("baseline", "reporting")] + ["accessor/billing_df", "hourly-data/ctor", "interleave/daily", "interleave/billing", "hourly-model/state"]
+    out += [f"series/{fam}/{role}" for fam in ("daily", "billing") for role in ("baseline", "reporting")] + ["accessor/billing_df", "hourly-data/ctor", "interleave/daily", "interleave/billing", "refit/daily", "refit/billing", "hourly-model/state"]
     return out
 
 
@@ -429,6 +429,91 @@ def interleave_scenario(fam, poor_a, poor_b, predict_between):
     return pr
 
 
+def refit_scenario(fam, poor_a, poor_b, predict_first, shared_doc):
+    """ONE model object is fit on meter A, (predicts), is fit again on meter B and predicts: everything it then says must
+    be what a model object that only ever saw meter B says.  shared_doc: two model objects loaded from the same stored
+    dict; refitting one must leave the other - and the caller's dict - alone."""
+    import copy
+    import types as _t
+    from opendsm.eemeter.models.daily.parameters import ModelCoefficients
+    Model = c04.FAM[fam][0]
+    idx = pd.date_range("2021-01-01", periods=3, freq="D", tz="US/Pacific")
+    frame = pd.DataFrame({"temperature": [40.0, 50.0, 60.0]}, index=idx)
+
+    def fit(m, metrics, intercept):
+        data = c04.pick_data(fam, "baseline", 0, "US/Pacific")
+        m._initialize_data = lambda md: (md, None)
+        m._combinations = lambda: ["fw-su_sh_wi"]
+        m._components = lambda: ["fw-su_sh_wi"]
+        cv = metrics
+        comp = _t.SimpleNamespace(wSSE=4 * cv * cv, N=4, resid=np.array([cv, -cv, cv, -cv]), obs=np.array([0.5, 1.5, 0.5, 1.5]))
+        m._fit_components = lambda: {"fw-su_sh_wi": comp}
+        m._best_combination = lambda print_out=False: "fw-su_sh_wi"
+        sub = _t.SimpleNamespace(T_min=0.0, T_max=100.0, T_min_seg=5.0, T_max_seg=95.0, f_unc=1.0,
+                                 named_coeffs=ModelCoefficients(model_type="tidd", intercept=intercept))
+        m._final_fit = lambda combo: {"fw-su_sh_wi": sub}
+        m.fit(data, ignore_disqualification=True)
+        m.__dict__.pop("_initialize_data", None)  # predict uses the real method
+        return m
+
+    def view(m):
+        out = m._predict(frame.copy())
+        # documents are compared as data (a loaded model writes 1.0 where a new one writes its int default 1)
+        return dict(doc=json.loads(json.dumps(m.to_dict(), sort_keys=True, default=str)), error=dict(m.error), dq=[w.qualified_name for w in m.disqualification],
+                    predicted=out["predicted"].to_numpy().tolist(), reloaded=Model.from_json(m.to_json())._predict(frame.copy())["predicted"].to_numpy().tolist())
+    cv_a, cv_b = (2.0 if poor_a else 0.2), (3.0 if poor_b else 0.3)
+    pr = []
+    if shared_doc:
+        stored = fit(Model(), cv_a, 10.0).to_dict()
+        before = copy.deepcopy(stored)
+        one, two = Model.from_dict(stored), Model.from_dict(stored)
+        v_two = view(two)
+        fit(one, cv_b, 20.0)
+        if view(two) != v_two:
+            pr.append("a model loaded from a stored dict changed when ANOTHER model loaded from the same dict was fit again")
+        if json.dumps(stored, sort_keys=True, default=str) != json.dumps(before, sort_keys=True, default=str):
+            pr.append("the caller's stored dict was rewritten by fitting a model loaded from it")
+        m = one
+    else:
+        m = fit(Model(), cv_a, 10.0)
+        if predict_first:
+            m._predict(frame.copy())
+        fit(m, cv_b, 20.0)
+    # reference: an object with the same kind of origin that only ever saw the second meter (a loaded model writes its
+    # settings as floats, a new one as the declared int defaults - textual, not behavioural)
+    ref = Model.from_dict(copy.deepcopy(before)) if shared_doc else Model()
+    want, got = view(fit(ref, cv_b, 20.0)), view(m)
+    for k in want:
+        if got[k] != want[k]:
+            pr.append(f"after a second fit the model's {k} is {str(got[k])[:90]}; a model that only saw the second meter gives {str(want[k])[:90]}")
+    return pr
+
+
+def replay_refit(inp):
+    pr = refit_scenario(inp["fam"], inp["poor_a"], inp["poor_b"], inp["predict_first"], inp["shared_doc"])
+    return bool(pr), "; ".join(pr[:3])
+
+
+def run_refit(case, fam):
+    case.inputs = []
+
+    def run():
+        cfg = dict(fam=fam, poor_a=F.choose("poor_a", [False, True]), poor_b=F.choose("poor_b", [False, True]), predict_first=F.choose("predict_first", [False, True]),
+                   shared_doc=F.choose("shared_doc", [False, True]))
+        return cfg, refit_scenario(**cfg)
+
+    paths = case.explore(run)
+    for p in paths:
+        if p.outcome != "ret":
+            case.rep["harness_errors"].append(f"refit scenario raised {p.value!r}")
+            continue
+        cfg, pr = p.value
+        rp = ("refit", (lambda c: lambda mdl: dict(c))(cfg))
+        case.prove(p, not pr, "a model object fit a second time (or loaded from a shared dict and refit) behaves as one that only saw the last meter; other objects and the caller's dict are untouched", replay=rp)
+        case.regime("second fit of one model object")
+    case.sample(dict(family=fam, histories=len(paths)))
+
+
 def replay_interleave(inp):
     pr = interleave_scenario(inp["fam"], inp["poor_a"], inp["poor_b"], inp["predict_between"])
     return bool(pr), "; ".join(pr)
@@ -713,7 +798,7 @@ def run_hourly_predict(case):
     case.sample(dict(scenario="HourlyModel.fit then predict on GHI-carrying reporting data"))
 
 
-REPLAY = {"data": replay_data, "predict": replay_predict, "gate": replay_gate, "hp": replay_hp, "series": replay_series, "accessor": replay_accessor, "hourly-data": replay_hourly_data, "interleave": replay_interleave, "hourly-state": replay_hourly_state}
+REPLAY = {"data": replay_data, "predict": replay_predict, "gate": replay_gate, "hp": replay_hp, "series": replay_series, "accessor": replay_accessor, "hourly-data": replay_hourly_data, "interleave": replay_interleave, "refit": replay_refit, "hourly-state": replay_hourly_state}
 
 
 def run_case(case: Case, name: str):
@@ -726,6 +811,8 @@ def run_case(case: Case, name: str):
         return run_accessor(case)
     if parts[0] == "hourly-data":
         return run_hourly_data(case)
+    if parts[0] == "refit":
+        return run_refit(case, parts[1])
     if parts[0] == "interleave":
         return run_interleave(case, parts[1])
     if parts[0] == "hourly-model":
